@@ -344,6 +344,8 @@ func (e *ex) Do(op string) core.Result {
 		return jsoncontent(t)
 	case "export":
 		return e.export()
+	case "jsonstr":
+		return jsonstr(t)
 	}
 	return core.Result{Impl: "bad-op"}
 }
